@@ -1,9 +1,419 @@
-"""Verus units (filled in later in this file's history): mechanical extraction + verus run."""
+"""Verus units: mechanical extraction of real functions from /repo + single-file `verus` run.
+
+A unit is a template /verif/verus/<name>.rs.  Its first line is a `//@ unit ...` annotation (same
+grammar as the Kani units, backend = verus).  Inside, each block
+
+    //@extract file=src/x.rs fn="pub fn name" [impl="impl Fill for Context"] [rename=new_name]
+    //@subst `from` => `to` [xN]
+    //@sig
+    //|     requires ..
+    //|     ensures ..
+    //@loop K
+    //|     invariant ..
+    //@after `anchor text`
+    //|     proof { .. }
+    //@before `anchor text`
+    //|     ..
+    //@end
+
+is replaced by the text of the named function copied from /repo's CURRENT working tree
+(from the `fn` line to the matching brace; attributes and doc comments above it are dropped) with
+ONLY these transformations, each recorded in evidence:
+  subst   exact textual substitution that must match exactly N times (the stated substitution
+          table of DESIGN.md 3/4.4: generic instantiation, destructuring assignment, to_le_bytes
+          wrapper, reuse! closure -> parameter, map_err(F)? -> match);
+  sig     ghost text inserted between the signature and the body;
+  loop K  ghost text inserted between the K-th loop header (textual order) and its body;
+  after/before  ghost text inserted after/before the unique line containing the anchor.
+After extraction the injected payload is stripped again and compared with the substituted
+original; a mismatch or a lost anchor is exit 2 (undecided), never a verdict.
+"""
+import json
+import os
+import re
+import subprocess
+import time
+
+import overlay
+from units import parse_kv
+
+VERUS_DIR = os.path.join(overlay.VERIF, "verus")
+
+
+class ExtractError(Exception):
+    pass
 
 
 def load_units():
-    return []
+    units = []
+    if not os.path.isdir(VERUS_DIR):
+        return units
+    for fn in sorted(os.listdir(VERUS_DIR)):
+        if not fn.endswith(".rs") or fn.startswith("_"):
+            continue
+        first = open(os.path.join(VERUS_DIR, fn)).readline()
+        m = re.match(r'^\s*//@ unit\s+(.*)$', first)
+        if not m:
+            continue
+        kv = parse_kv(m.group(1))
+        name = fn[:-3]
+        units.append({
+            "backend": "verus", "name": name, "harness": "verus::" + name, "file": fn,
+            "props": [p for p in kv.get("props", "").split(",") if p],
+            "tier": kv.get("tier", "quick"), "kind": kv.get("kind", "unbounded"),
+            "timeout": int(kv.get("timeout", "120")),
+            "funcs": [f.strip() for f in kv.get("funcs", "").split(";") if f.strip()],
+            "bound": kv.get("bound", ""), "stubs": [f.strip() for f in kv.get("stubs", "").split(";") if f.strip()],
+            "havoc": False, "replay": False, "note": kv.get("note", ""), "finding": kv.get("finding", ""),
+            "contract_of": "",
+        })
+    return units
+
+
+# ---- a small Rust-aware scanner ------------------------------------------------------------------
+
+def _skip_noncode(s, i):
+    """If s[i:] starts a comment / string / char literal, return index just past it, else i."""
+    if s.startswith("//", i):
+        j = s.find("\n", i)
+        return len(s) if j < 0 else j
+    if s.startswith("/*", i):
+        j = s.find("*/", i + 2)
+        return len(s) if j < 0 else j + 2
+    c = s[i]
+    if c == '"':
+        j = i + 1
+        while j < len(s):
+            if s[j] == "\\":
+                j += 2
+                continue
+            if s[j] == '"':
+                return j + 1
+            j += 1
+        return len(s)
+    if c == "'":
+        m = re.match(r"'(\\.[^']*|[^\\'])'", s[i:])
+        if m:
+            return i + m.end()
+        return i + 1  # lifetime
+    return i
+
+
+def find_matching_brace(s, open_idx):
+    assert s[open_idx] == "{"
+    depth = 0
+    i = open_idx
+    while i < len(s):
+        j = _skip_noncode(s, i)
+        if j != i:
+            i = j
+            continue
+        if s[i] == "{":
+            depth += 1
+        elif s[i] == "}":
+            depth -= 1
+            if depth == 0:
+                return i
+        i += 1
+    raise ExtractError("unbalanced braces")
+
+
+def find_body_open(s, start):
+    """Index of the `{` opening the body of the item whose header starts at `start`."""
+    depth = 0
+    i = start
+    while i < len(s):
+        j = _skip_noncode(s, i)
+        if j != i:
+            i = j
+            continue
+        c = s[i]
+        if c in "([":
+            depth += 1
+        elif c in ")]":
+            depth -= 1
+        elif c == "{" and depth == 0:
+            return i
+        elif c == ";" and depth == 0:
+            raise ExtractError("item has no body")
+        i += 1
+    raise ExtractError("body not found")
+
+
+def extract_fn(src_text, fn_anchor, impl_anchor=None):
+    base = 0
+    if impl_anchor:
+        hits = [m.start() for m in re.finditer(re.escape(impl_anchor), src_text)]
+        hits = [h for h in hits if re.match(r'[ \t]*$', src_text[src_text.rfind("\n", 0, h) + 1:h])]
+        if len(hits) != 1:
+            raise ExtractError(f"impl anchor `{impl_anchor}` found {len(hits)} times")
+        iopen = find_body_open(src_text, hits[0])
+        iclose = find_matching_brace(src_text, iopen)
+        region = (iopen, iclose)
+    else:
+        region = (0, len(src_text))
+    pat = re.compile(r'^[ \t]*' + re.escape(fn_anchor) + r'\b', re.M)
+    hits = [m for m in pat.finditer(src_text, region[0], region[1])]
+    # drop hits that are inside cfg(feature = "simd-nightly") items: keep the one whose preceding
+    # attribute lines do not enable simd-nightly
+    good = []
+    for m in hits:
+        pre = src_text[:m.start()].rstrip().split("\n")[-4:]
+        pre_txt = "\n".join(pre)
+        if re.search(r'#\[cfg\(feature = "simd-nightly"\)\]', pre_txt) and not re.search(r'not\(feature = "simd-nightly"\)', pre_txt):
+            continue
+        good.append(m)
+    if len(good) != 1:
+        raise ExtractError(f"fn anchor `{fn_anchor}` found {len(good)} times")
+    start = good[0].start()
+    bopen = find_body_open(src_text, start)
+    bclose = find_matching_brace(src_text, bopen)
+    text = src_text[start:bclose + 1]
+    line_no = src_text.count("\n", 0, start) + 1
+    # dedent
+    lines = text.split("\n")
+    ind = len(re.match(r'[ \t]*', lines[0]).group(0))
+    lines = [l[ind:] if l[:ind].strip() == "" else l for l in lines]
+    return "\n".join(lines), line_no
+
+
+LOOP_RE = re.compile(r"(?:^|\n)([ \t]*(?:'[a-z_]+:\s*)?)(for|while|loop)\b")
+
+
+def loop_header_positions(text):
+    """[(kw_index, body_open_index)] for every loop in textual order (skipping comments/strings)."""
+    res = []
+    i = 0
+    n = len(text)
+    at_stmt_start = True
+    while i < n:
+        j = _skip_noncode(text, i)
+        if j != i:
+            i = j
+            continue
+        m = re.match(r"(?:'[a-z_]+:\s*)?(for|while|loop)\b", text[i:])
+        prev = text[i - 1] if i > 0 else "\n"
+        if m and (prev in " \t\n{;}") and not re.match(r'[A-Za-z0-9_]', prev):
+            # exclude `for` in `impl X for Y` / HRTB `for<'a>`
+            kw_end = i + m.end()
+            if m.group(1) == "for" and text[kw_end:kw_end + 1] == "<":
+                i = kw_end
+                continue
+            try:
+                bo = find_body_open(text, kw_end)
+            except ExtractError:
+                i = kw_end
+                continue
+            res.append((i, bo))
+            i = kw_end
+            continue
+        i += 1
+    return res
+
+
+def process_template(tmpl_text, repo=None):
+    repo = repo or overlay.REPO
+    out = []
+    log = []
+    lines = tmpl_text.split("\n")
+    i = 0
+    while i < len(lines):
+        line = lines[i]
+        m = re.match(r'^\s*//@extract\s+(.*)$', line)
+        if not m:
+            out.append(line)
+            i += 1
+            continue
+        kv = parse_kv(m.group(1))
+        block = []
+        i += 1
+        while i < len(lines) and not re.match(r'^\s*//@end\s*$', lines[i]):
+            block.append(lines[i])
+            i += 1
+        if i >= len(lines):
+            raise ExtractError("//@extract without //@end")
+        i += 1
+        path = os.path.join(repo, kv["file"])
+        if not os.path.exists(path):
+            raise ExtractError(f"{kv['file']} not found (lost anchor)")
+        text, line_no = extract_fn(open(path).read(), kv["fn"], kv.get("impl"))
+        entry = {"file": kv["file"], "fn": kv["fn"], "impl": kv.get("impl"), "line": line_no,
+                 "substitutions": [], "injections": []}
+        # parse directives
+        directives = []
+        cur = None
+        for b in block:
+            dm = re.match(r'^\s*//@(subst|sig|loop|after|before|drop_line)\b\s*(.*)$', b)
+            if dm:
+                cur = {"kind": dm.group(1), "arg": dm.group(2).strip(), "payload": []}
+                directives.append(cur)
+                continue
+            pm = re.match(r'^\s*//\|(.*)$', b)
+            if pm and cur is not None:
+                pl = pm.group(1)
+                cur["payload"].append(pl[1:] if pl.startswith(" ") else pl)
+                continue
+            if b.strip() == "":
+                continue
+            raise ExtractError(f"bad line in extract block: {b}")
+        # substitutions first
+        t1 = text
+        for d in directives:
+            if d["kind"] == "subst":
+                sm = re.match(r'^`(.*?)`\s*=>\s*`(.*?)`(?:\s+x(\d+))?$', d["arg"], flags=re.S)
+                if not sm:
+                    raise ExtractError(f"bad subst: {d['arg']}")
+                frm = sm.group(1).replace("\\n", "\n")
+                to = sm.group(2).replace("\\n", "\n")
+                cnt = int(sm.group(3) or 1)
+                if t1.count(frm) != cnt:
+                    raise ExtractError(f"subst anchor `{frm[:60]}` occurs {t1.count(frm)}x, expected {cnt} "
+                                       f"in {kv['fn']} (source drifted)")
+                t1 = t1.replace(frm, to)
+                entry["substitutions"].append({"from": frm, "to": to, "count": cnt})
+            elif d["kind"] == "drop_line":
+                sm = re.match(r'^`(.*?)`$', d["arg"])
+                frm = sm.group(1)
+                ls = t1.split("\n")
+                hit = [k for k, l in enumerate(ls) if frm in l]
+                if len(hit) != 1:
+                    raise ExtractError(f"drop_line anchor `{frm}` occurs {len(hit)}x")
+                entry["substitutions"].append({"dropped_line": ls[hit[0]].strip()})
+                del ls[hit[0]]
+                t1 = "\n".join(ls)
+        if kv.get("rename"):
+            old = re.search(r'fn\s+([A-Za-z0-9_]+)', t1).group(1)
+            t1 = re.sub(r'fn\s+' + old + r'\b', "fn " + kv["rename"], t1, count=1)
+            entry["substitutions"].append({"rename": [old, kv["rename"]]})
+        # injections: compute insertion points on t1, apply from the back
+        inserts = []  # (index, text)
+        loops = None
+        for d in directives:
+            payload = "\n".join(d["payload"])
+            if d["kind"] == "sig":
+                bo = find_body_open(t1, 0)
+                inserts.append((bo, "\n" + payload + "\n"))
+                entry["injections"].append({"where": "signature", "text": payload})
+            elif d["kind"] == "loop":
+                if loops is None:
+                    loops = loop_header_positions(t1[find_body_open(t1, 0):])
+                    off = find_body_open(t1, 0)
+                    loops = [(a + off, b + off) for a, b in loops]
+                k = int(d["arg"])
+                if k < 1 or k > len(loops):
+                    raise ExtractError(f"loop {k} not found in {kv['fn']} ({len(loops)} loops)")
+                inserts.append((loops[k - 1][1], "\n" + payload + "\n"))
+                entry["injections"].append({"where": f"loop {k}", "text": payload})
+            elif d["kind"] in ("after", "before"):
+                sm = re.match(r'^`(.*?)`$', d["arg"])
+                anchor = sm.group(1)
+                idxs = [mm.start() for mm in re.finditer(re.escape(anchor), t1)]
+                if len(idxs) != 1:
+                    raise ExtractError(f"anchor `{anchor[:60]}` occurs {len(idxs)}x in {kv['fn']} (source drifted)")
+                if d["kind"] == "after":
+                    e = t1.find("\n", idxs[0])
+                    e = len(t1) if e < 0 else e
+                    inserts.append((e, "\n" + payload))
+                else:
+                    b = t1.rfind("\n", 0, idxs[0]) + 1
+                    inserts.append((b, payload + "\n"))
+                entry["injections"].append({"where": f"{d['kind']} `{anchor}`", "text": payload})
+        t2 = t1
+        for idx, txt in sorted(inserts, key=lambda x: -x[0]):
+            t2 = t2[:idx] + "/*@inj*/" + txt + "/*@endinj*/" + t2[idx:]
+        # round trip
+        stripped = re.sub(r'/\*@inj\*/.*?/\*@endinj\*/', '', t2, flags=re.S)
+        if stripped != t1:
+            raise ExtractError("round-trip check failed (injection altered code text)")
+        out.append(f"// ---- extracted from {kv['file']}:{line_no} `{kv['fn']}` ----")
+        out.append(t2)
+        out.append("// ---- end of extracted function ----")
+        log.append(entry)
+    return "\n".join(out), log
+
+
+def run_one(unit, scratch, log_dir, prop):
+    res = {"verdict": "undecided", "reason": "", "checks": 0, "failed_checks": [], "covers": [0, 0],
+           "duration_s": None, "solver_s": None}
+    tmpl = open(os.path.join(VERUS_DIR, unit["file"])).read()
+    try:
+        text, elog = process_template(tmpl)
+    except ExtractError as e:
+        res["reason"] = f"extraction: {e}"
+        return res
+    res["extraction"] = elog
+    os.makedirs(scratch, exist_ok=True)
+    path = os.path.join(scratch, unit["name"] + ".rs")
+    open(path, "w").write(text)
+    if log_dir:
+        open(os.path.join(log_dir, f"{prop}-verus-{unit['name']}.rs"), "w").write(text)
+    cmd = ["verus", path, "--output-json", "--time", "--rlimit", str(unit.get("rlimit", 30))]
+    t0 = time.time()
+    try:
+        p = subprocess.run(cmd, cwd=scratch, stdout=subprocess.PIPE, stderr=subprocess.STDOUT,
+                           timeout=unit["timeout"], text=True, errors="replace")
+        out = p.stdout
+    except subprocess.TimeoutExpired:
+        res["reason"] = "verus timed out"
+        return res
+    res["duration_s"] = round(time.time() - t0, 2)
+    res["cmd"] = " ".join(cmd)
+    res["output"] = (out[:jm0.start()] if (jm0 := re.search(r'^\{$', out, flags=re.M)) else out)[:6000]
+    if log_dir:
+        open(os.path.join(log_dir, f"{prop}-verus-{unit['name']}.log"), "w").write(out)
+    jm = re.search(r'^\{$', out, flags=re.M)
+    data = None
+    if jm:
+        try:
+            data = json.loads(out[jm.start():])
+        except Exception:
+            data = None
+    if data is None:
+        res["reason"] = "verus produced no JSON (crash)"
+        return res
+    vr = data.get("verification-results", {})
+    verified = int(vr.get("verified", 0) or 0)
+    errors = int(vr.get("errors", 0) or 0)
+    res["checks"] = verified + errors
+    smt = data.get("times-ms", {}).get("smt", {})
+    res["solver_s"] = round((smt.get("total", 0) or 0) / 1000.0, 3)
+    failed_fns = []
+    for mt in smt.get("smt-run-module-times", []) or []:
+        for fb in mt.get("function-breakdown", []) or []:
+            if not fb.get("success", True):
+                failed_fns.append(fb.get("function"))
+    if vr.get("encountered-vir-error"):
+        res["verdict"] = "undecided"
+        errs = re.findall(r'^error(?:\[E\d+\])?: (.*)$', out, flags=re.M)
+        res["reason"] = "extracted code not accepted by Verus (unsupported construct / type error): " + "; ".join(errs[:3])
+        return res
+    if vr.get("success") and errors == 0 and verified > 0:
+        res["verdict"] = "pass"
+        return res
+    if "Resource limit (rlimit) exceeded" in out or "rlimit" in out and "exceeded" in out:
+        res["verdict"] = "undecided"
+        res["reason"] = "solver resource limit exceeded"
+        return res
+    if errors > 0:
+        msgs = re.findall(r'^error: (.*)\n\s+--> [^\n]*:(\d+):\d+', out, flags=re.M)
+        res["verdict"] = "fail"
+        res["failed_checks"] = [{"function": f, "description": "verification condition not discharged"} for f in failed_fns] or \
+                               [{"function": "?", "description": m[0], "line": m[1]} for m in msgs]
+        res["reason"] = "; ".join(f"{m[0]} (line {m[1]})" for m in msgs[:4]) or "verification failed"
+        return res
+    res["reason"] = "verus failed without a verification error"
+    return res
 
 
 def run(units, scratch, log_dir, prop, tier):
-    return {}, {"cmd": "", "wall_s": 0.0}
+    results = {}
+    t0 = time.time()
+    vdir = os.path.join(scratch, "verus")
+    cmds = []
+    for u in units:
+        r = run_one(u, vdir, log_dir, prop)
+        results[u["harness"]] = r
+        if r.get("cmd"):
+            cmds.append(r["cmd"])
+    return results, {"cmd": "; ".join(sorted(set(c.split(" ")[0] + " <extracted>.rs --output-json --time" for c in cmds))),
+                     "wall_s": time.time() - t0}
